@@ -76,6 +76,12 @@ ASSUME = ['TLC results are exhaustive only within the stated constants (1 blob, 
           'through BlobStorage.undo are modelled and replayed; its pack (_packUndoing over a packed FileStorage) is not, and '
           'the write-permission bits of the copies BlobStorage.undo writes are compared but not judged',
           'fsync is switched off in the replays (durability is not part of C13)',
+          'calls with a foreign transaction are made on the storage under test at every phase of a commit in progress; the '
+          'racing second writer runs in a thread of its own that is stopped between the two statements of '
+          'BlobStorage.tpc_abort / tpc_finish and let go where the behaviour says (Late): every position relative to c1\'s '
+          'commit is a TLC behaviour; the I/O fault is one failing raw write (zv.faultfs) of the first blob copy in undo(); a '
+          'temporary file FileStorage leaves in tmp/ on that fault is counted, not judged',
+          'once a current revision has lost its blob file (reported) the rest of the behaviour is not replayed',
           'c1 minimizes its cache at the end of each of its transactions (a Blob object activated while a stale savepoint '
           'file shadowed its committed file keeps that path: a consequence of F3 that depends on the cache, not judged apart)',
           'transaction, persistent, zodbpickle, zope.interface trusted as installed']
@@ -495,8 +501,8 @@ def run(ctx):
             if fl == 'mixin':
                 jobs.append(('mc', ('design-%s-txn2' % fl, bd.consts(fl, MaxTid=4, MaxSp=2, **dict(rc, Atoms=('a', 'b'))), 'NextTxn',
                                     DESIGN_INV[:-1], DESIGN_PROPS, 4, 3000, sc)))
-    nsim = 24 if q else 700
-    nrand = 120 if q else 3000
+    nsim = 16 if q else 700
+    nrand = 100 if q else 3000
     for fl in FLAVOURS:
         for keep in ((False, True) if fl == 'mixin' else (False,)):
             c = bd.consts(fl, NBlob=3, MaxTid=10, MaxSp=2, KeepOld=keep, **as_code[fl])
@@ -513,12 +519,14 @@ def run(ctx):
                                          seed * 1009 + 31 * part + len(rel) + (7 if keep else 0), sc, seed + part)))
             c4 = dict(c, NBlob=4, MaxTid=14)
             d = directed(fl, q, packs_only=keep)
-            if fl == 'wrapfile' and q:
-                # what the third flavour adds is BlobStorage.undo: every undo scenario, a third of the rest
-                und = [x for x in d if any(e['a'] == 'UBegin' for e in x)]
-                d = und + [x for x in d if x not in und][::3]
+            if fl in WRAPPERS and q:
+                # quick tier: what the wrappers add - BlobStorage.undo, its abort / finish bookkeeping, its pack - in
+                # full; of the Connection-level matrix, which does not depend on the storage, a third / a half
+                own = ('UBegin', 'UStoreCopyFail', 'Wrong', 'OtherAbort', 'OtherFinish', 'Late', 'Pack')
+                und = [x for x in d if any(e['a'] in own for e in x)]
+                d = und + [x for x in d if x not in und][::3 if fl == 'wrapfile' else 2]
             rng = random.Random('%s/%d/%s' % (fl, seed, keep))
-            rs = [random_script(rng, fl, 4) for _ in range(nrand // (2 if keep or fl == 'wrapfile' else 1))]
+            rs = [random_script(rng, fl, 4) for _ in range(nrand * 2 // 5 if keep else nrand // 2 if fl == 'wrapfile' else nrand * 7 // 10 if fl == 'wrapmap' else nrand)]
             allscr = [('dir', d), ('rnd', rs)]
             for kind, scripts in allscr:
                 nchunk = max(1, round(len(scripts) / (75 if q else 150)))
@@ -547,7 +555,8 @@ def run(ctx):
     # vacuity: every action of the specification was replayed on each flavour it applies to
     for fl in FLAVOURS:
         need = [x for x in bd.ALL_ACTIONS if (fl in UNDO or not x.startswith('U')) and (fl != 'wrapfile' or x != 'Pack')
-                and (fl in WRAPPERS or x not in ('OtherAbort', 'OtherFinish', 'Late'))]
+                and (fl in WRAPPERS or x not in ('OtherAbort', 'OtherFinish', 'Late'))
+                and (x != 'Late' or as_code[fl]['LateBookkeeping'])]      # (no late turn in the repaired model)
         miss = [x for x in need if not cov['actions'][fl].get(x)]
         if miss and not cov['mismatches']:
             raise RuntimeError('%s: actions never replayed: %s' % (fl, miss))
